@@ -570,6 +570,16 @@ def partial_cases(rng):
     yield ('distinct-key-whole', '$data.distinct(tick(1, $ mod 3)).toList()', data, {1: (n, n)})
     yield ('toDict-whole', '$data.toDict(tick(1, $), tick(2, $ + 1)).len()', data, {1: (n, n), 2: (n, n)})
     yield ('takeWhile-whole', '$data.takeWhile(tick(1, true)).toList()', data, {1: (n, n)})
+    # regex matches are produced on demand: the selector runs for the matches consumed
+    hay = "$data.select(str($)).join(' ')"
+    yield ('searchAll-selector-partial', "regex('[0-9]+').searchAll(%s, tick(1, $.value))%s" % (hay, sink), data,
+           {1: (min(K, n), min(K + 1, n))})
+    yield ('searchAll-selector-method-partial', "%s.searchAll(regex('[0-9]+'), tick(1, int($.value)))%s" % (hay, sink), data,
+           {1: (min(K, n), min(K + 1, n))})
+    yield ('searchAll-selector-whole', "regex('[0-9]+').searchAll(%s, tick(1, $.value)).toList()" % hay, data, {1: (n, n)})
+    if n:
+        yield ('searchAll-selector-first', "regex('[0-9]+').searchAll(%s, tick(1, $.value)).first()" % hay, data, {1: (1, min(2, n))})
+        yield ('searchAll-selector-any', "regex('[0-9]+').searchAll(%s, tick(1, $.value)).any(true)" % hay, data, {1: (1, min(2, n))})
     yield ('selectAllCases-partial', 'selectAllCases(%s)%s' % (', '.join('tick(%d, %s)' % (i + 1, 'true' if f else 'false')
                                                                         for i, f in enumerate(flags)), sink), data,
            {i + 1: (1 if sum(flags[:i]) < K else 0, 1 if sum(flags[:i]) < K + 1 else 0) for i in range(n)})
